@@ -95,6 +95,24 @@ Proof.
 Qed.
 Print Assumptions C01_account_snapshot.
 
+(** An "open" report whose remaining quantity (the REPORT's quantity minus its filled quantity) is
+    not zero never untracks the order.  In particular an OVER-FILLED report (filled > quantity:
+    the remaining quantity is negative, not zero -- Open::quantity_remaining does not clamp) keeps
+    the order tracked, whatever the tracked state and the timestamps. *)
+Theorem C01_open_report_keeps_tracked : forall (s : orders) (sn : osnap) (m : meta),
+  o_state sn = SA (Open m) -> rem (o_qty sn) m <> 0 ->
+  step s (Snap sn) (k_cid (o_key sn)) <> None.
+Proof. exact open_report_keeps_tracked. Qed.
+Print Assumptions C01_open_report_keeps_tracked.
+
+Theorem C01_overfilled_stays_tracked : forall (s : orders) (sn : osnap) (m : meta),
+  o_state sn = SA (Open m) -> m_filled m > o_qty sn ->
+  step s (Snap sn) (k_cid (o_key sn)) <> None.
+Proof.
+  intros s sn m Hs Hf. apply (open_report_keeps_tracked s sn m Hs). unfold rem. Lia.lia.
+Qed.
+Print Assumptions C01_overfilled_stays_tracked.
+
 (** The run-time oracle is no stricter than the model: on every correspondence case where the
     model reproduces the observed maps, the observed maps satisfy the oracle (so an oracle failure
     on the implementation is always a genuine departure from the modelled behaviour). *)
